@@ -13,41 +13,59 @@ import vp
 DRIVER = "drv-pubsub"
 
 INV = {
-    "C01": ["TypeOK", "Order", "LossOverflow", "LossNoOverflow", "Recipients"],
-    "C02": ["TypeOK", "RefExact", "FreeIffZero", "ChunkUnique", "NoLeak", "Conservation"],
-    "C08": ["TypeOK", "ChunksSuffice", "UsedBound", "LoanInside", "LimitsRespected"],
+    "C01": ["TypeOK", "Order", "LossOverflow", "LossNoOverflow", "Recipients", "FaultyPairQuiet"],
+    "C02": ["TypeOK", "RefExact", "FreeIffZero", "ChunkUnique", "NoLeak", "Conservation", "CqFits"],
+    "C08": ["TypeOK", "ChunksSuffice", "UsedBound", "CqFits", "LoanInside", "LimitsRespected"],
 }
 PROPS = {"C01": ["HasSamplesIff"], "C02": [], "C08": ["BeyondUnchanged"]}
 # invariants evaluated on every state of an explained real trace (NoLeak/Conservation need the chunk
 # indices to be dense, which only the model guarantees; on traces their content is carried by the probe)
 TRACE_INV = {
-    "C01": ["TypeOK", "Order", "LossOverflow", "LossNoOverflow", "Recipients"],
+    "C01": ["TypeOK", "Order", "LossOverflow", "LossNoOverflow", "Recipients", "FaultyPairQuiet"],
     "C02": ["TypeOK", "RefExact", "FreeIffZero", "ChunkUnique"],
     "C08": ["TypeOK", "ChunksSuffice", "UsedBound", "LoanInside", "LimitsRespected"],
 }
 INV_OWNER = {i: pid for pid, l in INV.items() for i in l if i != "TypeOK"}
+INV_OWNER["CqFits"] = "C08"     # listed by C02 as well ("no leak after": a release that fails leaks the chunk)
 ACTIONS = ["ACreatePublisher", "ADropPublisher", "ACreateSubscriber", "ADropSubscriber", "ALoan", "ASend",
            "ADropLoan", "AReceive", "ADropSample", "AUpdatePub", "AUpdateSub", "AHasSamples", "AProbeLoans"]
+FAULT_ACTIONS = ["ABreakSeg", "AOccupy"]
+SPLIT_ACTIONS = ["ASendBegin", "ADeliver", "ABpCall", "ABpRet", "ASendEnd"]
 
 # which property an unexplainable event of a given kind belongs to
 EVENT_OWNER = {
-    "recv": {"C01", "C08"}, "send": {"C01"}, "has": {"C01"},
+    "recv": {"C01", "C08"}, "send": {"C01"}, "send_end": {"C01"}, "bp": {"C01"}, "has": {"C01"},
+    "update_sub": {"C01"}, "update_pub": {"C01", "C02"},
     "loan": {"C02", "C08"}, "probe": {"C02", "C08"},
     "create_pub": {"C08"}, "create_sub": {"C08"},
     "panic": {"C01", "C02", "C08"},
 }
 
 
+def event_owner(e):
+    """which property an unexplainable event belongs to"""
+    o = EVENT_OWNER.get(e.get("a"))
+    if o is not None and e.get("a") == "recv" and e.get("r") == "ExceedsMaxBorrows":
+        # the code still counts a reference that is gone according to the specification (a released
+        # sample whose release failed): a leaked borrow slot / chunk - C02 "no leak after" as well
+        o = o | {"C02"}
+    return o
+
+
 def qos(maxpubs=1, maxsubs=2, bufmax=2, hist=1, borrow=1, loan=1, overflow=True, strategy="discard",
-        payload="u64", variant="ipc"):
+        payload="u64", variant="ipc", expbuf=64, align=8):
+    """expbuf = defaults.publish_subscribe.subscriber_expired_connection_buffer of the node configuration,
+    align = payload alignment override of the service (8 = none)"""
     return dict(maxpubs=maxpubs, maxsubs=maxsubs, bufmax=bufmax, hist=hist, borrow=borrow, loan=loan,
-                overflow=1 if overflow else 0, strategy=strategy, payload=payload, variant=variant)
+                overflow=1 if overflow else 0, strategy=strategy, payload=payload, variant=variant,
+                expbuf=expbuf, align=align)
 
 
 def qos_tla(q):
     return ("[maxpubs |-> %d, maxsubs |-> %d, bufmax |-> %d, hist |-> %d, borrow |-> %d, loan |-> %d, "
-            "overflow |-> %s, strategy |-> \"%s\"]" % (q["maxpubs"], q["maxsubs"], q["bufmax"], q["hist"], q["borrow"],
-                                                      q["loan"], "TRUE" if q["overflow"] else "FALSE", q["strategy"]))
+            "overflow |-> %s, strategy |-> \"%s\", expbuf |-> %d]"
+            % (q["maxpubs"], q["maxsubs"], q["bufmax"], q["hist"], q["borrow"], q["loan"],
+               "TRUE" if q["overflow"] else "FALSE", q["strategy"], q.get("expbuf", 64)))
 
 
 def setstr(xs):
@@ -92,51 +110,72 @@ def grid_jobs(seed, count, steps, full=False):
 
 
 # ---------------------------------------------------------------------------------------------
-# parameter extraction (DESIGN.md 3.3): number of chunks the running code allocates
+# parameter extraction (DESIGN.md 3.3): number of chunks the running code allocates, capacity of the
+# completion queue the running code creates
 
-def read_chunks(ctx, qs, tag="params"):
+def read_params(ctx, qs, tag="params"):
+    """-> (number_of_samples per QoS, completion queue capacity of a connection with buffer bufmax per QoS)"""
     d = ctx.path("params", "x")[:-2]
     jp = os.path.join(d, f"{tag}.json")
     with open(jp, "w") as f:
         json.dump([{"cfg": q} for q in qs], f)
     _, so, _ = vp.run_driver(DRIVER, ["params", "--work", d, "--jobs", jp], timeout=300)
-    ns = vp.last_json_line(so)["number_of_samples"]
-    if len(ns) != len(qs):
+    j = vp.last_json_line(so)
+    ns, cq = j["number_of_samples"], j["completion_queue_capacity"]
+    if len(ns) != len(qs) or len(cq) != len(qs):
         raise vp.ToolError("params: wrong number of answers")
-    return ns
+    return ns, cq
+
+
+def read_chunks(ctx, qs, tag="params"):
+    return read_params(ctx, qs, tag)[0]
 
 
 # ---------------------------------------------------------------------------------------------
 # TLC instances
 
+def inst_opts(faults=False, split=False, conc=False, degs=("warn",), cqextra=1):
+    """switches of a model checking instance: fault actions, split form of send, subscriber calls concurrent
+    to a send, degradation modes tried by the create actions, completion queue capacity - (buffer + borrow)"""
+    return dict(faults=faults, split=split, conc=conc, degs=tuple(degs), cqextra=cqextra)
+
+
 def write_instance(ctx, name, base, q, pubs, subs, bufs, reqs, nchunks, maxids, body="", cfg_extra="",
-                   spec="MCSpec", genlen=None):
+                   spec="MCSpec", genlen=None, opts=None):
+    o = opts or inst_opts()
     d = ctx.path("mc", name, "x")[:-2]
+    degs = "{" + ", ".join(f'"{x}"' for x in o["degs"]) + "}"
     with open(os.path.join(d, f"{name}.tla"), "w") as f:
-        f.write(f"---- MODULE {name} ----\nEXTENDS {base}\nQV == {qos_tla(q)}\n{body}\n====\n")
+        f.write(f"---- MODULE {name} ----\nEXTENDS {base}\nQV == {qos_tla(q)}\nDegV == {degs}\nCqV == {o['cqextra']}\n"
+                f"{body}\n====\n")
     with open(os.path.join(d, f"{name}.cfg"), "w") as f:
         f.write(f"SPECIFICATION {spec}\nCONSTANTS\n PubIds = {setstr(pubs)}\n SubIds = {setstr(subs)}\n Q <- QV\n"
                 f" BufChoices = {setstr(bufs)}\n ReqChoices = {setstr(reqs)}\n NChunks = {nchunks}\n MaxIds = {maxids}\n"
-                " AllowKnown <- FalseValue\n"
+                " AllowKnown <- FalseValue\n DegChoices <- DegV\n CqExtra <- CqV\n"
+                + (" FaultsOn <- TrueValue\n" if o["faults"] else "")
+                + (" SplitSendOn <- TrueValue\n" if o["split"] else "")
+                + (" ConcurrentSub <- TrueValue\n" if o["conc"] else "")
                 + (f" GenLen = {genlen}\n" if genlen is not None else "")
                 + "CHECK_DEADLOCK FALSE\n" + cfg_extra)
     return d
 
 
 def model_check(ctx, pid, name, q, pubs, subs, bufs, reqs, maxids, nchunks, view=None, timeout=900, workers=8,
-                count=True):
+                count=True, opts=None):
     view = view or "NoOutView"
     """Design check of PubSub.tla on one small instance with the invariants of property `pid`;
-    `nchunks` comes from the running code.  Returns the TlcResult (violations are NOT raised here)."""
+    `nchunks` (and opts.cqextra) come from the running code.  Returns the TlcResult (violations are NOT raised here)."""
     extra = "INVARIANTS " + " ".join(INV[pid]) + "\n"
     if PROPS[pid]:
         extra += "PROPERTIES " + " ".join(PROPS[pid]) + "\n"
     if view:
         extra += f"VIEW {view}\n"
-    d = write_instance(ctx, name, "PubSub", q, pubs, subs, bufs, reqs, nchunks, maxids, cfg_extra=extra)
+    d = write_instance(ctx, name, "PubSub", q, pubs, subs, bufs, reqs, nchunks, maxids, cfg_extra=extra, opts=opts)
     res = vp.tlc(d, name, workers=workers, timeout=timeout, libs=["api"])
+    o = opts or inst_opts()
+    sw = "".join(c for c, k in (("F", "faults"), ("S", "split"), ("C", "conc")) if o[k])
     vp.record_tlc(ctx, f"PubSub[{name}: pubs={len(pubs)} subs={len(subs)} {short(q)} N={nchunks} ids<={maxids}"
-                       f"{' view=' + view if view else ''}]", res, count=count)
+                       f"{' view=' + view if view else ''}{' switches=' + sw if sw else ''} cq+{o['cqextra']}]", res, count=count)
     if res.timed_out:
         raise vp.ToolError(f"TLC timed out on {name}")
     return res
@@ -170,7 +209,8 @@ def check_coverage(res, what, required=None):
 
 def short(q):
     return (f"P{q['maxpubs']}S{q['maxsubs']}B{q['bufmax']}H{q['hist']}b{q['borrow']}l{q['loan']}"
-            f"{'o' if q['overflow'] else 'n'}{q['strategy'][0] if q['strategy'] == 'discard' else q['strategy'][6]}")
+            f"{'o' if q['overflow'] else 'n'}{q['strategy'][0] if q['strategy'] == 'discard' else q['strategy'][6]}"
+            + (f"x{q['expbuf']}" if q.get('expbuf', 64) != 64 else "") + (f"a{q['align']}" if q.get('align', 8) != 8 else ""))
 
 
 def mc_counterexample(res):
@@ -360,7 +400,8 @@ def known_defect_tags(output, items):
 
 
 def describe(e):
-    keys = [k for k in ("p", "s", "id", "buf", "req", "c", "n", "blk", "cnt", "cs", "v", "cok", "r", "msg") if k in e]
+    keys = [k for k in ("p", "s", "id", "buf", "req", "deg", "k", "act", "c", "n", "blk", "cnt", "cs", "v", "cok", "r", "msg")
+            if k in e]
     return e.get("a", e.get("k")) + "(" + ", ".join(f"{k}={e[k]}" for k in keys) + ")" + \
         (f" BAD={e['bad']}" if e.get("bad") else "")
 
@@ -415,7 +456,7 @@ def validate(ctx, pid, trace, jobs, label, max_rounds=6):
             owner = {"C01", "C02"}
             what = f"received payload is not byte-identical to what was written: {describe(bad)}"
         else:
-            owner = EVENT_OWNER.get(bad.get("a"))
+            owner = event_owner(bad)
             what = f"the specification cannot explain {describe(bad)}"
             if owner is None:
                 raise vp.ToolError(f"{label}: structural event not explainable (harness/spec bug?): {bad} at record "
